@@ -129,6 +129,29 @@ def evaluate(ctx, lines, rle, all8, allocs, cfgs, big=False):
             if bad:
                 corr.violation("ipow", f"all 8-bit pairs ({cfg}): {bad[0]}", {"line": bad[1] or "ipowall8", "cfg": cfg}, impl=bad[0], oracle_fails=True,
                                key={"kind": "ipowall8"}, cfg=cfg)
+        # the utilities where the language evaluates constants if it can (initialisers of namespace-scope constants)
+        if all8:
+            co, _ = C.run_lines(exe, ["np2const 8", "np2const 16", "np2const 32", "np2const 64", "ipowconst 8", "ipowconst 64"])
+            for ln, o in zip(["np2const 8", "np2const 16", "np2const 32", "np2const 64", "ipowconst 8", "ipowconst 64"], co):
+                w = int(ln.split()[1]); isnp = ln.startswith("np2")
+                ob = "round_pow2" if isnp else "ipow"
+                ents = [e.split(":") for e in o.split(";") if e] if not o.startswith("CRASH") else []
+                bad = None if ents else f"harness answered `{o[:80]}`"
+                for e in ents:
+                    if isnp:
+                        i, cst, rt = map(int, e); spec = least_pow2(i) % (1 << w); what = f"round_pow2<uint{w}>({i})"
+                    else:
+                        b, x, cst, rt = map(int, e); spec = pow(b, x, 1 << w); what = f"ipow<uint{w}>({b},{x})"
+                    if cst != spec or rt != spec:
+                        bad = f"{what}: {cst} as the initialiser of a namespace-scope constant, {rt} at run time, specification value {spec}"
+                        break
+                corr.configs[cfg] += len(ents)
+                corr.evaluations += len(ents)
+                corr.nontrivial.add(C.chash((ln, cfg)))
+                corr.dist[f"{ln.split()[0]}/w{w}"] += len(ents)
+                corr.add_obl(ob, max(1, len(ents)), 1 if bad else 0)
+                if bad:
+                    corr.violation(ob, f"{bad} ({cfg})", {"line": ln, "cfg": cfg, "constinit": True}, impl=bad, oracle_fails=True, key={"kind": ln.split()[0], "w": w}, cfg=cfg)
         # curve storage: allocation of the converting constructors = ipow(round_pow2(max), N) and covers the largest curve position
         if allocs:
             am = C.run_driver("driver", [L.model_line(lay, "u64", sz, [s - 1 for s in sz]) for lay, sz in allocs])
@@ -271,6 +294,8 @@ def replay(ctx):
         return evaluate(ctx, [], [], False, [(c["allocix"][0], [2, 2])], cfg)
     if "allocct" in c:        # the fixed narrow-coordinate list runs whenever an allocation of that layout is checked
         return evaluate(ctx, [], [], False, [(c["allocct"][0], [2, 2])], cfg)
+    if c.get("constinit"):
+        return evaluate(ctx, [], [], True, [], cfg)
     if "line" in c and c["line"] and not c["line"].startswith("ipowall"):
         return evaluate(ctx, [c["line"]], [], False, [], cfg)
     if "rle" in c:
